@@ -3,6 +3,7 @@
    T <hex>      the created validation of pack.go (validateRFC3339) accepts
    L <hex>      time.Parse(time.RFC3339, _) alone succeeds (the lenient recogniser)
    F y mo d h mi s   time.Date(..., UTC).Format(time.RFC3339) of a valid civil time (INVALID otherwise)
+   A <ann>      json.Marshal of a map[string]string and the pairs read back from it, in document order
    S <hex>      digest.FromBytes(..).String() (sha256)
    J <hex>      json.Marshal of a string (escaping)      B <hex>   base64.StdEncoding of bytes
    U <hex>      a string after json.Marshal / Unmarshal (invalid UTF-8 coerced)
@@ -129,6 +130,14 @@ let () =
       if civil_ok (n y) (n mo) (n d) (n h) (n mi) (n s)
       then Printf.printf "%s %s\n" id (hex_of_str (format_rfc3339_utc (n y) (n mo) (n d) (n h) (n mi) (n s)))
       else Printf.printf "%s INVALID\n" id
+    | [id; "A"; a] ->
+      let l = ann_of a in
+      let bytes = json_ann l in
+      let back = match read_obj bytes with
+        | Some (ps, []) -> (match ps with [] -> "-" | _ ->
+            String.concat ";" (List.map (fun (k, v) -> hex_of_str k ^ "=" ^ hex_of_str v) ps))
+        | _ -> "UNREADABLE" in
+      Printf.printf "%s %s %s\n" id (hex_of_str bytes) back
     | [id; "S"; h] -> Printf.printf "%s %s\n" id (hex_of_str (digest_of (str_of_hex h)))
     | [id; "J"; h] -> Printf.printf "%s %s\n" id (hex_of_str (json_string (str_of_hex h)))
     | [id; "B"; h] -> Printf.printf "%s %s\n" id (hex_of_str (base64 (str_of_hex h)))
